@@ -15,7 +15,8 @@ echo "== demo against the unchanged tree (expect exit 0)"
 git -C /repo status --short | grep -v '^??' && { echo "/repo not clean"; exit 2; }
 git -C /repo apply /verif/$D/patch.diff || { echo "patch does not apply"; exit 2; }
 for P in "$@"; do
-  ./check $P --no-evidence > /tmp/seeded-$NAME-$P.log 2>&1
-  echo "$P rc=$? $(grep -c '^VIOLATION' /tmp/seeded-$NAME-$P.log) $(grep '^violation' /tmp/seeded-$NAME-$P.log | head -1 | cut -c1-160)"
+  ( ./check $P --no-evidence > /tmp/seeded-$NAME-$P.log 2>&1
+    echo "$P rc=$? $(grep -c '^VIOLATION' /tmp/seeded-$NAME-$P.log) $(grep '^violation' /tmp/seeded-$NAME-$P.log | head -1 | cut -c1-160)" ) &
 done
+wait
 git -C /repo checkout -- . ; git -C /repo status --short | grep -v '^??' || true
